@@ -6,11 +6,12 @@ package seq
 
 import (
 	"fmt"
+	"math"
 	"testing"
 )
 
 func verifReplayStrings() []string {
-	alpha := []string{"a", "é", "世", "\xf0\x9f\x98\x80", "\xff", "\xc0", "\xe4\xb8"}
+	alpha := []string{"a", "é", "世", "\xf0\x9f\x98\x80", "\xff", "\xc0", "\xe4\xb8", "\x80", "\xbf", "\x7f"}
 	out := []string{""}
 	var rec func(prefix string, n int)
 	rec = func(prefix string, n int) {
@@ -114,6 +115,20 @@ func TestVerifReplayIter(t *testing.T) {
 			if c != 1 {
 				fail("NewMapIter: key %v visited %d times", k, c)
 			}
+		}
+		// keys that are not equal to themselves are still visited by range
+		nan := math.NaN()
+		m3 := map[float64]int{nan: 10, 1: 1}
+		m3[nan] = 20
+		var got3, want3 int
+		for it := NewMapIter(m3); it.MoveNext(); {
+			got3 += it.Current().Val
+		}
+		for _, v := range m3 {
+			want3 += v
+		}
+		if got3 != want3 {
+			fail("NewMapIter over a map with NaN keys: values sum to %d, range gives %d", got3, want3)
 		}
 		m2 := map[int]int{1: 1, 2: 2, 3: 3, 4: 4}
 		n := 0
